@@ -97,6 +97,8 @@ def coq_ty(t):
         return COQ_TY[t]
     if t.startswith('opt '):
         return 'option (%s)' % coq_ty(t[4:])
+    if t.startswith('iter '):
+        return 'list (%s)' % coq_ty(t[5:])
     return re.sub(r'[A-Za-z_]\w*', lambda m: COQ_TY.get(m.group(0), m.group(0)) if m.group(0) not in ('Z', 'bool', 'nat', 'unit') else m.group(0), t)
 
 
@@ -574,6 +576,9 @@ class FnTranslator:
                     add(n.id)
                 elif isinstance(n, ast.Yield):
                     add('yield__')
+                elif isinstance(n, ast.Call) and isinstance(n.func, ast.Name) and n.func.id == 'next' and n.args \
+                        and isinstance(n.args[0], ast.Name):
+                    add(n.args[0].id)              # next(it, ..) advances the iterator
                 elif isinstance(n, ast.Attribute) and isinstance(n.ctx, ast.Store) and isinstance(n.value, ast.Name):
                     add(n.value.id)
                 elif isinstance(n, ast.Expr):
@@ -782,6 +787,27 @@ class FnTranslator:
                 return self.wrap(g, env, ctx, kk)
             if not isinstance(target, ast.Name):
                 refuse('assignment to a non-local target %s' % ast.unparse(target), s)
+            if isinstance(s, ast.Assign) and isinstance(target, ast.Name) and isinstance(value, ast.Call) \
+                    and isinstance(value.func, ast.Name) and not value.keywords:
+                # it = iter(L): an iterator over a list is the list of the elements not yet consumed
+                if value.func.id == 'iter' and len(value.args) == 1 and 'iter' not in self.locals:
+                    g, t, ty = self.tr(value.args[0], env)
+                    if not ty.startswith('list ') or t is None:
+                        refuse('iter() of a non-list', s)
+                    name = self.mangle(target.id)
+                    return self.wrap(g, env, ctx, lambda e: '(let %s := %s in %s)' % (name, t, krest(e.bind(target.id, name, 'iter ' + ty[5:]))))
+                # x = next(it, None): x is the head or None, the iterator advances
+                if value.func.id == 'next' and len(value.args) == 2 and isinstance(value.args[0], ast.Name) \
+                        and isinstance(value.args[1], ast.Constant) and value.args[1].value is None and 'next' not in self.locals \
+                        and value.args[0].id in env.vars and env.vars[value.args[0].id]['ty'].startswith('iter ') \
+                        and env.vars[value.args[0].id]['st'] == 'bound':
+                    itn = value.args[0].id
+                    itv = env.vars[itn]
+                    ety = itv['ty'][5:]
+                    name, iname = self.mangle(target.id), self.mangle(itn)
+                    return '(let %s := hd_error %s in (let %s := tl %s in %s))' % (
+                        name, itv['coq'], iname, itv['coq'],
+                        krest(env.bind(target.id, name, 'opt ' + ety).bind(itn, iname, itv['ty'])))
             if isinstance(s, ast.Assign) and isinstance(value, ast.BoolOp):
                 try:
                     self.tr(value, env)
